@@ -29,6 +29,8 @@ type Ctx struct {
 	// nested: this context runs another property's rule set on behalf of a borrowing one; borrows inside it are
 	// skipped (two properties may borrow from each other)
 	nested bool
+	// rawWriters: cache of gcscaRawWriters
+	rawWriters map[*ssa.Function]int
 }
 
 // RuleSet decides one property.
@@ -831,4 +833,95 @@ func recordBoolCells(c *Ctx, r *esp.Rule, base int, rel string) func(ssa.Instruc
 		_, ok = cellOf(fa)
 		return ok
 	}
+}
+
+// ---- storage writes of sign/gcsca, seen through thin writing helpers ----
+//
+// A *raw writer* is a function of sign/gcsca that does nothing to storage but write one object whose name is one of
+// its own parameters (put(ctx, object, data)): it makes no existence probe. The logical storage write is then the call
+// of that helper, with the argument in the name parameter's place as the object name; the ops.WriteFile inside the
+// helper is not a write site of its own.
+
+// gcscaRawWriters returns the raw writers and, for each, the index of the parameter that names the object.
+func (c *Ctx) gcscaRawWriters() map[*ssa.Function]int {
+	if c.rawWriters != nil {
+		return c.rawWriters
+	}
+	out := map[*ssa.Function]int{}
+	storPkg := repoPath("storage/storagei")
+	wf := c.P.Func("storage/ops", "WriteFile")
+	for _, f := range c.P.RepoFunctions() {
+		if load.RelPkg(f) != "sign/gcsca" || c.isTestFunc(f) || f.Blocks == nil {
+			continue
+		}
+		if len(callsIn(f, func(call ssa.CallInstruction) bool { return invokeIs(call, storPkg, "Client", "Exists") })) > 0 {
+			continue
+		}
+		ws := callsIn(f, func(call ssa.CallInstruction) bool {
+			return (wf != nil && call.Common().StaticCallee() == wf) || invokeIs(call, storPkg, "Client", "Writer")
+		})
+		if len(ws) != 1 {
+			continue
+		}
+		args := ws[0].Common().Args
+		var name ssa.Value
+		if ws[0].Common().StaticCallee() == wf && len(args) >= 4 {
+			name = args[3]
+		} else if len(args) >= 3 {
+			name = args[2]
+		}
+		prm, ok := name.(*ssa.Parameter)
+		if !ok {
+			continue
+		}
+		for i, q := range f.Params {
+			if q == prm {
+				out[f] = i
+			}
+		}
+	}
+	c.rawWriters = out
+	return out
+}
+
+// gcscaWriteName: call is a logical storage write of sign/gcsca; returns the value naming the object written.
+func (c *Ctx) gcscaWriteName(call ssa.CallInstruction) (ssa.Value, bool) {
+	storPkg := repoPath("storage/storagei")
+	wf := c.P.Func("storage/ops", "WriteFile")
+	raw := c.gcscaRawWriters()
+	if g := call.Common().StaticCallee(); g != nil {
+		if i, ok := raw[g]; ok && i < len(call.Common().Args) {
+			return call.Common().Args[i], true
+		}
+	}
+	if call.Parent() != nil {
+		if _, inRaw := raw[call.Parent()]; inRaw {
+			return nil, false // the helper's own write is represented by the helper's call sites
+		}
+	}
+	args := call.Common().Args
+	if wf != nil && call.Common().StaticCallee() == wf && len(args) >= 4 {
+		return args[3], true
+	}
+	if invokeIs(call, storPkg, "Client", "Writer") && len(args) >= 3 {
+		return args[2], true
+	}
+	return nil, false
+}
+
+func (c *Ctx) gcscaIsWrite(call ssa.CallInstruction) bool {
+	_, ok := c.gcscaWriteName(call)
+	return ok
+}
+
+// gcscaGates: the functions of sign/gcsca that probe for existence and contain a logical storage write.
+func (c *Ctx) gcscaGates() map[*ssa.Function]bool {
+	storPkg := repoPath("storage/storagei")
+	gates := map[*ssa.Function]bool{}
+	for _, f := range c.funcsCalling(func(call ssa.CallInstruction) bool { return invokeIs(call, storPkg, "Client", "Exists") }) {
+		if load.RelPkg(f) == "sign/gcsca" && !c.isTestFunc(f) && len(callsIn(f, c.gcscaIsWrite)) > 0 {
+			gates[f] = true
+		}
+	}
+	return gates
 }
